@@ -209,7 +209,7 @@ func init() {
 			{Name: "import-mark-dropped", File: "fast/import.go", Old: "\timpenv.IntAddressTaken = true\n", New: "", Canary: true},
 			{Name: "prepareenv-realloc-unchecked", File: "fast/repl.go", Old: "\t\tif env.IntAddressTaken {\n\t\t\tc.Errorf(\"internal error: attempt to reallocate Env.Ints[] after one of its addresses was taken\")\n\t\t}\n", New: "", Canary: true},
 			{Name: "newbind-ignores-max", File: "fast/declaration.go", Old: "if (c.IntBindMax == 0 || c.IntBindNum < c.IntBindMax) &&", New: "if (c.IntBindMax == 0 || c.IntBindNum <= c.IntBindMax) &&"},
-			{Name: "address-mark-on-wrong-frame", File: "fast/address.go", Old: "\t\t\t\tenv = env.\n\t\t\t\t\tOuter\n\n\t\t\t\tenv.IntAddressTaken = true\n\t\t\t\treturn (*int)", New: "\t\t\t\tenv.IntAddressTaken = true\n\t\t\t\tenv = env.\n\t\t\t\t\tOuter\n\n\t\t\t\treturn (*int)"},
+			{Name: "address-mark-on-wrong-frame", File: "fast/address.go", Old: "\t\t\t\t\tenv = env.\n\t\t\t\t\t\tOuter\n\n\t\t\t\t\tenv.IntAddressTaken = true\n\t\t\t\t\treturn (*int)", New: "\t\t\t\t\tenv.IntAddressTaken = true\n\t\t\t\t\tenv = env.\n\t\t\t\t\t\tOuter\n\n\t\t\t\t\treturn (*int)"},
 			{Name: "quopow2-guard-dropped", File: "fast/var_ops.go", Old: "\tif va.Desc.Class() != IntBind {\n\t\t// boxed variable: the specialisations below address Env.Ints directly\n\t\treturn nil\n\t}\n", New: ""},
 			{Name: "new-ints-writer", File: "fast/compile.go", Old: "\trun.CurrEnv = env.Outer\n\tenv.freeEnv(run)", New: "\trun.CurrEnv = env.Outer\n\tenv.Ints = env.Ints[:0:0]\n\tenv.freeEnv(run)"},
 		},
